@@ -301,8 +301,11 @@ def run(ctx):
             if cr["kind"] == "out" and (cr["facts"].get("mocks") or []):
                 nontrivial.add(key)
             fams = set(cr["families"])
+            # findings the oracle recognises on the output itself only count where the model (the behaviour
+            # the finding was described on) and the implementation agree
+            agrees = cr["verdict"] in OK_VERDICTS
             for _, sym in fails:
-                if sym in ("transient_qualifier_rename", "goimports_sibling_capture"):
+                if sym in ("transient_qualifier_rename", "goimports_sibling_capture") and agrees:
                     fams.add(sym)
             if cr["verdict"] == "ok-diverges":
                 fams.add("alias_resolution_diverges")
@@ -423,6 +426,13 @@ def run(ctx):
                                      fails=[("moq %s . %s does not print what the library generates for the "
                                              "configuration these flags select" % (" ".join(o["flags"]), " ".join(o["args"])),
                                              "flag wiring")], families=[]))
+            if ctx.pid == "C16" and o["rc"] == 0 and o.get("out_matches_ref") is False and "-fmt" not in o["flags"]:
+                failures.append(dict(case=dict(case=dict(id=o["name"], args=o["args"], pkg="", stub=False, skip=False,
+                                                         resets=False, flags=o["flags"], out=o["out"], prior=o["prior"]),
+                                               text=o.get("out_after"), facts={}, src={}),
+                                     fails=[("after a successful default run the -out file is not the gofmt-canonical "
+                                             "output (prior content: %s)" % o["prior"], "file is not the default output")],
+                                     families=[]))
             evaluated += 1
     return finish(ctx, spec, obligations, corr_breaks, failures, known_hits, listed, notes, st, evaluated,
                   len(nontrivial))
@@ -438,6 +448,13 @@ def cli_oracle(pid, o, groups):
         for k, (a, b) in sorted(o["changed"].items()):
             if outkey and (k == outkey or (k.endswith("/") and outkey.startswith(k) and a is None and b == "dir")):
                 continue
+            if k.endswith("#mode"):
+                base = k[:-len("#mode")]
+                # the mode of something this run created (the -out file, missing parents) is new, not changed
+                if base == outkey:
+                    continue      # the requested output file is moq's to create, replace or (with -rm) remove
+                if a is None and base.endswith("/") and outkey and outkey.startswith(base):
+                    continue
             if outkey and o["fault"] == "out-is-dir":
                 pass
             fails.append(("moq changed %s (%s -> %s) although -out is %s" % (k, a, b, out), "unexpected change"))
